@@ -291,7 +291,11 @@ var genericTupleKind = registerKind(300, reflect.TypeOf((*GenericTuple)(nil)))
 func (t *GenericTuple) Kind() int {
 	if t.Count() == 1 {
 		if x, ok := t.Get(negateTag); ok {
-			return -x.Kind()
+			// Only a wrapper around a non-wrapper takes the negated kind: negating
+			// the kind of a wrapper would collide with the kinds of ordinary values.
+			if k := x.Kind(); k > 0 {
+				return -k
+			}
 		}
 	}
 	return genericTupleKind
@@ -308,17 +312,12 @@ func (t *GenericTuple) Less(v Value) bool {
 	if t.Kind() != v.Kind() {
 		return t.Kind() < v.Kind()
 	}
-	if t.Count() == 1 {
-		if x, ok := t.Get(negateTag); ok {
-			u := v.(Tuple)
-			if u.Count() != 1 {
-				panic(negateTag + " kind not single-attr tuple")
-			}
-			if y, ok := v.(Tuple).Get(negateTag); ok {
-				return y.Less(x)
-			}
-			panic(negateTag + " kind missing " + negateTag + " attr")
-		}
+	if t.Kind() < 0 {
+		// Both are {(negateTag): _} wrappers around values of one kind: order
+		// them by the wrapped values, reversed.
+		x, _ := t.Get(negateTag)
+		y, _ := v.(Tuple).Get(negateTag)
+		return y.Less(x)
 	}
 
 	x := v.(*GenericTuple)
